@@ -16,6 +16,10 @@ import (
 //	              ids with pools (2,1) (scenario c11conc)
 //	stage race  : the same concurrency workload under the race detector; Post classifies the
 //	              race report blocks
+//	stages storm16 / storm2 / stormrace : request storm on ONE job id (scenario c11storm): per round
+//	              8 goroutines released through a barrier fire an on-change event or RunJob for the
+//	              same id, from an idle state or at the instant a run gives its slot back;
+//	              GOMAXPROCS 16 and 2, and once under the race detector
 func init() {
 	plans["C11"] = Plan{Prop: "C11", Level: "exploration",
 		Rule: "sweep: one case = one job definition out of source{Sample,Slow,Dataset,Dataset+LatestOnly,Union,Multi,Http(loopback)} x transform{none,JS p=1,JS p=3,Http(loopback)} x " +
@@ -23,6 +27,8 @@ func init() {
 			"quick = greedy 3-wise cover of the product, thorough = full product; each accepted definition is triggered twice (new data in between), drained, and judged per run " +
 			"(slot returned, stored result newer than the run's start, tickets+running==pool, GetRunningJobs empty, process alive). " +
 			"conc: one case = one seeded schedule of writer/event, RunJob, KillJob and status-poll actors against 3 job ids with cron, on-change, reRun and fullsync-queue retries, pools (2,1). " +
+			"storm: one case = one seeded sequence of rounds; in each round N=8 goroutines parked on a barrier are released together and each fires an on-change event (event bus) or Scheduler.RunJob for the SAME job id, " +
+			"two rounds out of three from an idle state, every third at the instant a run returns its slot; cron @every 1s ticks meanwhile; GOMAXPROCS 16 and 2 and once under -race; evidence counts rounds and the maximal number of requests in flight at once. " +
 			"Non-trivial = the definition has >= 2 optional features (transform, handlers, onchange, fullsync, LatestOnly, fault) or >= 2 run requests overlapped (two runs open at once, RunJob refused as already running, or fullsync back-pressure)",
 		Assumptions: []string{
 			"run lifecycle is observed through the statsd client the runner is constructed with (ticket gauges are emitted inside the raffle's critical sections; jobs.count/success/error/cancelled by job.Run) and correlated per goroutine; title == id in all generated jobs",
@@ -38,12 +44,18 @@ func init() {
 					{Name: "sweep", Scenario: "c11sweep", Args: "cover=full,shards=16,par=4", Children: 16, Cases: 100000, Timeout: 14 * time.Minute},
 					{Name: "conc", Scenario: "c11conc", Args: "steps=120", Children: 6, Cases: 2, Timeout: 12 * time.Minute},
 					{Name: "race", Scenario: "c11conc", Args: "steps=80", Children: 4, Cases: 1, Race: true, Timeout: 12 * time.Minute},
+					{Name: "storm16", Scenario: "c11storm", Args: "rounds=200,n=8,burst=25", Children: 3, Cases: 2, GOMAXPROCS: 16, Timeout: 12 * time.Minute},
+					{Name: "storm2", Scenario: "c11storm", Args: "rounds=200,n=8,burst=25", Children: 3, Cases: 2, GOMAXPROCS: 2, Timeout: 12 * time.Minute},
+					{Name: "stormrace", Scenario: "c11storm", Args: "rounds=60,n=8,burst=25", Children: 2, Cases: 1, Race: true, GOMAXPROCS: 16, Timeout: 12 * time.Minute},
 				}
 			}
 			return []Stage{
 				{Name: "sweep", Scenario: "c11sweep", Args: "cover=3,shards=16,par=4", Children: 16, Cases: 100000, Timeout: 5 * time.Minute},
 				{Name: "conc", Scenario: "c11conc", Args: "steps=40", Children: 4, Cases: 1, Timeout: 5 * time.Minute},
 				{Name: "race", Scenario: "c11conc", Args: "steps=30", Children: 2, Cases: 1, Race: true, Timeout: 6 * time.Minute},
+				{Name: "storm16", Scenario: "c11storm", Args: "rounds=40,n=8,burst=25", Children: 2, Cases: 1, GOMAXPROCS: 16, Timeout: 6 * time.Minute},
+				{Name: "storm2", Scenario: "c11storm", Args: "rounds=40,n=8,burst=25", Children: 2, Cases: 1, GOMAXPROCS: 2, Timeout: 6 * time.Minute},
+				{Name: "stormrace", Scenario: "c11storm", Args: "rounds=15,n=8,burst=25", Children: 1, Cases: 1, Race: true, GOMAXPROCS: 16, Timeout: 6 * time.Minute},
 			}
 		},
 		Post: c11Post,
